@@ -104,6 +104,7 @@ def work(tier, seed):
     k = max(1, len(small) // 160)
     units += [{"cases": ch} for ch in common.chunks(small, k)]
     units.append({"oracle_check": True})
+    units.append({"diag_flag": True})
     return units
 
 
@@ -313,10 +314,65 @@ def oracle_crosscheck():
     return worst, n_checked
 
 
+def check_diag_flag(torch):
+    """check_diagonal decides the fast path in the optimizer: the path it selects must give the general path's value.  Inputs:
+    exactly diagonal matrices (sorted / unsorted / with zeros), and sparse but non-diagonal PSD matrices whose number of
+    non-zero entries does not exceed n (a dense k x k block, k*k <= n), plus tiny off-diagonal entries."""
+    import matrix_functions as mf
+
+    out, ncase = [], 0
+    for dtype in ("f32", "f64"):
+        dt = common.dtype_of(dtype)
+        u = common.UNIT[dtype]
+        for n in (2, 4, 5, 9, 16):
+            mats = {"diag": np.diag(np.linspace(0.25, 2.0, n)), "diag_unsorted": np.diag(np.linspace(2.0, 0.25, n)), "diag_zero": np.diag([0.0] + [1.0] * (n - 1))}
+            for k in (2, 3):
+                if k * k <= n:
+                    B = np.zeros((n, n))
+                    blk = np.full((k, k), 0.5) + np.eye(k)
+                    B[n - k :, n - k :] = blk
+                    mats[f"block{k}"] = B
+            T = np.diag(np.linspace(0.5, 1.0, n))
+            T[0, n - 1] = T[n - 1, 0] = 1e-30
+            mats["tiny_offdiag"] = T
+            for name, M in mats.items():
+                A = torch.tensor(M, dtype=dt)
+                truly = bool(np.all(M - np.diag(np.diag(M)) == 0))
+                for r in (Fraction(2), Fraction(4), Fraction(3, 2)):
+                    for eps in (1e-1, 1e-3):
+                        ncase += 1
+                        case = {"diag_flag": True, "n": n, "dtype": dtype, "matrix": name, "root": [r.numerator, r.denominator], "eps": eps}
+                        try:
+                            flag = bool(mf.check_diagonal(A))
+                            Xf = mf.matrix_inverse_root(A, root=r, epsilon=eps, is_diagonal=flag).double().numpy()
+                            Xg = mf.matrix_inverse_root(A, root=r, epsilon=eps, is_diagonal=False).double().numpy()
+                        except Exception as e:
+                            out.append((case, f"raised {type(e).__name__}: {str(e)[:100]}"))
+                            continue
+                        if flag != truly:
+                            out.append((case, f"check_diagonal returned {flag} for a matrix that is {'diagonal' if truly else 'not diagonal'} ({name}, n={n})"))
+                        w = np.linalg.eigvalsh(M) + eps
+                        kappa = float(w.max() / w.min())
+                        rel = float(np.linalg.norm(Xf - Xg) / max(np.linalg.norm(Xg), 1e-300))
+                        if not rel <= C_BOUND * n * u * kappa + U32 * float(np.max(np.abs(np.log(w)))):
+                            out.append((case, f"the path selected by check_diagonal differs from the general path by {rel:.2e} ({name}, n={n})"))
+    return out, ncase
+
+
 def run_unit(unit):
     import torch
 
     res = {"evals": 0, "transitions": 0, "states": set(), "outcomes": set(), "nontrivial_count": 0, "violations": [], "samples": [], "stats": {}}
+    if unit.get("diag_flag"):
+        res = {"evals": 0, "transitions": 0, "states": set(), "outcomes": set(), "nontrivial_count": 0, "violations": [], "samples": [], "stats": {}}
+        bad, ncase = check_diag_flag(torch)
+        res["evals"] = res["transitions"] = ncase
+        res["stats"]["diag_flag_cases"] = ncase
+        res["states"] = [common.h64("diag_flag")]
+        res["outcomes"] = [common.h64(len(bad))]
+        for case, m in bad[:10]:
+            res["violations"].append({"case": case, "msg": m, "kind": "diagflag"})
+        return res
     if unit.get("oracle_check"):
         worst, n = oracle_crosscheck()
         res["evals"] += n
@@ -351,6 +407,9 @@ def run_unit(unit):
 def replay(case):
     import torch
 
+    if case.get("diag_flag"):
+        bad, _ = check_diag_flag(torch)
+        return [m for c, m in bad if c == case]
     if case.get("oracle_check"):
         w, _ = oracle_crosscheck()
         return [f"oracle deviates {w}"] if w > 8 else []
